@@ -66,3 +66,35 @@ Definition dilate_spec_all d f bc := map (dilate_spec d f bc) (all_positions (sh
 (* does the whole neighbourhood of p lie inside the image? *)
 Definition nbh_inside (d : dt) (f bc : arr) (p : list Z) : bool :=
   forallb (fun e => in_shapeb (shape f) (psub p (fst e)) && in_shapeb (shape f) (padd p (fst e))) (support d bc).
+
+(* ---------- Python-level compositions (morph.py) ---------- *)
+Definition mk (f : arr) (x : list Z) : arr := {| shape := shape f; data := x |}.
+Definition pmin (a b : list Z) : list Z := map (fun ab => Z.min (fst ab) (snd ab)) (combine a b).
+Definition pmax (a b : list Z) : list Z := map (fun ab => Z.max (fst ab) (snd ab)) (combine a b).
+
+Definition mh_open (d : dt) (f bc : arr) : list Z := dilate_generic d (mk f (erode_generic d f bc)) bc.
+Definition mh_close (d : dt) (f bc : arr) : list Z := erode_generic d (mk f (dilate_generic d f bc)) bc.
+
+Definition list_eqb (a b : list Z) : bool :=
+  (Nat.eqb (length a) (length b)) && forallb (fun ab => fst ab =? snd ab) (combine a b).
+
+(* cdilate: f = min(f,g); repeat n times: prev = f; f = min(dilate f, g); stop when unchanged *)
+Fixpoint cdilate_loop (d : dt) (f : arr) (g : list Z) (bc : arr) (n : nat) : list Z :=
+  match n with
+  | O => data f
+  | S k =>
+      let f' := pmin (dilate_generic d f bc) g in
+      if list_eqb f' (data f) then f' else cdilate_loop d (mk f f') g bc k
+  end.
+Definition mh_cdilate (d : dt) (f : arr) (g : list Z) (bc : arr) (n : nat) : list Z :=
+  cdilate_loop d (mk f (pmin (data f) g)) g bc n.
+
+(* cerode: f = max(f,g); f = erode(f); return max(f,g) *)
+Definition mh_cerode (d : dt) (f : arr) (g : list Z) (bc : arr) : list Z :=
+  pmax (erode_generic d (mk f (pmax (data f) g)) bc) g.
+
+Definition subm_d (d : dt) (a b : Z) : Z :=
+  match d with DBool => subm {| bits := 1; signed := false |} a b | DInt t => subm t a b end.
+Definition psubm (d : dt) (a b : list Z) : list Z := map (fun ab => subm_d d (fst ab) (snd ab)) (combine a b).
+Definition mh_tophat_open (d : dt) (f bc : arr) : list Z := psubm d (data f) (mh_open d f bc).
+Definition mh_tophat_close (d : dt) (f bc : arr) : list Z := psubm d (mh_close d f bc) (data f).
